@@ -14,7 +14,10 @@ func (p *Pool) Stop() {
 		return
 	}
 
+	p.sendM.Lock()
 	p.cancel()
+	p.sendM.Unlock()
+
 	p.sendWg.Wait()
 	p.runWg.Wait()
 
